@@ -240,14 +240,22 @@ func traceCase(r *gen.Rand) Input {
 	}
 	// define functions from innermost to outermost so that each body can call the next by name
 	var raiseSite, lastTopCall site
+	argCall := make([]bool, n) // the call of function i carries an argument that is itself a call
+	for i := range argCall {
+		argCall[i] = r.Chance(1, 3)
+	}
 	invoke := func(i int, p string) (string, int) {
 		// text that calls function i (0-based) and the column offset of the callee's first character within it
 		nm := names[i]
+		a := ""
+		if argCall[i] {
+			a = "idf(idf(0))"
+		}
 		switch kinds[i] {
 		case fkMethod:
-			return p + "o" + nm + ".m()", len(p)
+			return p + "o" + nm + ".m(" + a + ")", len(p)
 		case fkCtor:
-			return p + "new " + nm + "()", len(p) + 4
+			return p + "new " + nm + "(" + a + ")", len(p) + 4
 		case fkForEach:
 			return p + "[1].forEach(" + nm + ")", len(p)
 		case fkCall:
@@ -261,8 +269,9 @@ func traceCase(r *gen.Rand) Input {
 		case fkGetter:
 			return p + "o" + nm + ".g", len(p)
 		}
-		return p + nm + "()", len(p)
+		return p + nm + "(" + a + ")", len(p)
 	}
+	addLine("function idf(x) { return x }")
 	for i := n - 1; i >= 0; i-- {
 		nm := names[i]
 		var bodyLines []string
